@@ -616,7 +616,6 @@ func (x *c32Machine) sendCSNPs() {
 	x.compare("sendCSNPss")
 }
 
-
 // ---------------------------------------------------------------------------
 // generator
 
